@@ -325,23 +325,41 @@ def c11_5(ctx, ss):
     ff, flow = fn(ss, DECAY, "DecayMode.from_pdgids")
     rets = returns(ff)
     k = ckey(ff, None, "pdgids")
-    full = [r for r in rets if isinstance(r.value, ast.Call) and "daughters=None" not in txt(r.value).replace(" ", "")]
-    empty = [r for r in rets if r not in full]
-    okf = False
-    for r in full:
+    # every exit builds the mode from bf, the mapped ids (or None when no ids are given) and all metadata
+    kinds = set()
+    fwd = bool(rets)
+    MAP = "EvtGenName2PDGIDBiMap[PDGID(__elem__(daughters))]"
+    map_nodes = []
+    for r in rets:
         c = r.value
-        dd = call_arg(c, 1, "daughters")
+        if not isinstance(c, ast.Call):
+            fwd = False
+            continue
         bf = call_arg(c, 0, "bf")
         star = [kw for kw in c.keywords if kw.arg is None and txt(kw.value) == "info"]
+        if bf is None or txt(bf) != "bf" or not star:
+            fwd = False
+        dd = call_arg(c, 1, "daughters")
         e = flow.expand(dd) if dd is not None else None
-        if e is not None and isinstance(e, ast.ListComp) and len(e.generators) == 1 and not e.generators[0].ifs and txt(e.generators[0].iter) == "daughters" \
-                and txt(e.elt) == "EvtGenName2PDGIDBiMap[PDGID(__elem__(daughters))]" and bf is not None and txt(bf) == "bf" and star:
-            okf = True
+        for a_ in (phi_alts(e) if e is not None else [None]):
+            if a_ is None or (isinstance(a_, ast.Constant) and a_.value is None):
+                kinds.add("empty")
+            elif isinstance(a_, ast.ListComp) and len(a_.generators) == 1 and not a_.generators[0].ifs and txt(a_.generators[0].iter) == "daughters" and txt(a_.elt) == MAP:
+                kinds.add("map")
+            else:
+                kinds.add("other:" + txt(a_)[:60])
+    # the mapping is what is used whenever ids are given: the statement that computes it runs under `daughters` (truthy) only
+    for n_ in pf.walk_no_nested(ff.node):
+        if isinstance(n_, ast.ListComp) and "EvtGenName2PDGIDBiMap" in txt(n_):
+            st_ = stmt_of(ff, n_)
+            conds = sorted((txt(e_), pol) for kind, e_, pol in guards.path_conditions(ff.node, st_, skip_raise_guards=True) if kind == "if")
+            map_nodes.append(conds)
+    cond_ok = bool(map_nodes) and all(c_ in ([], [("daughters", True)]) for c_ in map_nodes)
+    okf = fwd and "map" in kinds and not [k_ for k_ in kinds if k_.startswith("other")] and cond_ok
     (ctx.holds if okf else ctx.violation)("C11.5", k + " :: map", where(ff, ff.node),
                                           "every PDG ID is mapped through the EvtGen bi-map, bf and metadata forwarded" if okf
                                           else "from_pdgids does not map every id (in order) or drops bf / metadata")
-    oke = all(isinstance(r.value, ast.Call) and call_arg(r.value, 0, "bf") is not None and txt(call_arg(r.value, 0, "bf")) == "bf"
-              and any(kw.arg is None and txt(kw.value) == "info" for kw in r.value.keywords) for r in empty) and bool(empty)
+    oke = fwd and "empty" in kinds
     (ctx.holds if oke else ctx.violation)("C11.5", k + " :: empty", where(ff, ff.node),
                                           "without ids an empty mode with bf and metadata is built" if oke else "the no-daughters branch drops bf or metadata")
 
